@@ -15,6 +15,7 @@ limit of <timeout> seconds per query (SIGXCPU; insensitive to machine load) and 
 call is isolated without paying a process per call.
 
 setup ops    ["db", path] interrogate_request_database      ["mod", {...}] interrogate_request_module
+             ["dbmem", latin1-text] the same for a file given by content (memfd; "dbmem" also as key of "mod")
              ["touch"] force loading                         ["dir", d] interrogate_add_search_directory
 query ops    ["c", fname, int...]      call by index / position      -> value
              ["n", fname, latin1-name] call by name                  -> value
@@ -96,10 +97,20 @@ class Child:
     def fn(self, name):
         return getattr(self.lib, name)
 
+    def memfile(self, text):
+        """a database file that exists only in this child: an anonymous memory file, named through /proc"""
+        fd = os.memfd_create("idb")
+        data = enc(text)
+        while data:
+            data = data[os.write(fd, data):]
+        return "/proc/self/fd/%d" % fd
+
     def setup(self, op):
         k = op[0]
         if k == "db":
             self.lib.interrogate_request_database(enc(op[1]))
+        elif k == "dbmem":
+            self.lib.interrogate_request_database(enc(self.memfile(op[1])))
         elif k == "dir":
             self.lib.interrogate_add_search_directory(enc(op[1]))
         elif k == "touch":
@@ -109,7 +120,7 @@ class Child:
             md = MD()
             md.file_identifier = d.get("id", 0)
             md.library_name, md.library_hash_name, md.module_name = enc(d.get("lib")), enc(d.get("hash")), enc(d.get("mod"))
-            md.database_filename = enc(d.get("dbfile"))
+            md.database_filename = enc(self.memfile(d["dbmem"]) if "dbmem" in d else d.get("dbfile"))
             names = d.get("names")
             if names is not None:
                 arr = (UN * max(1, len(names)))(*[UN(enc(n), o) for n, o in names])
